@@ -62,6 +62,9 @@ def units(ctx):
     for i in range(len(_al3(ctx))):
         yield ("triples", i)
     yield from hist.hist_units()
+    if ctx["tier"] != "quick":
+        for t1 in range(0, 31):
+            yield ("ticks", t1)
 
 
 def _al3(ctx):
@@ -78,6 +81,16 @@ def gen_cases(unit, ctx):
             yield {"seed": unit[1], "build": unit[2], "hist": h}
         return
     kind, i = unit
+    if kind == "ticks":
+        # thorough: a time signature at tick i and a key signature / second time signature at EVERY lattice tick
+        p = ctx["p"]
+        for ns in ([], [(0, 10, p, 0, 64)], [(3, 7, p, 0, 1), (10, 20, p + 1, 0, 127)], [(29, 1, p, 0, 64)]):
+            for t2 in range(0, 31):
+                for tsv in TS[1:3]:
+                    yield {"seqs": [S(ns, [("ts", i, tsv[0], tsv[1]), ("ks", t2, KEYS[(i + t2) % 15])])]}
+                    if t2 != i:
+                        yield {"seqs": [S(ns, [("ts", i, tsv[0], tsv[1])]), S([(5, 5, p + 2, 0, 9)], [("ts", t2, 5, 8), ("ks", t2, "F#")])]}
+        return
     al = notes_alpha(ctx)
     if kind == "one":
         if i == 0:
